@@ -72,6 +72,7 @@ pub fn prop() -> HistProp {
             .boxed()
         })),
         many_batches: 0,
+        zero_arrival: 0,
     }
 }
 
